@@ -56,3 +56,78 @@ Theorem C17_bytes_edit2_appends : forall v, wfb v = true -> top_ok v -> forall b
 Proof. exact edit2_appends. Qed.
 Print Assumptions C17_bytes_edit2_appends.
 (* ---- END edit2 ---- *)
+
+(* ---- the builder on ARBITRARY entries (BuilderFrame.v).  BuilderProofs.write_entry_spec identifies what build_into
+   appends with the layout, for entries whose length fields are right (entry_okb).  The frame property itself needs no
+   such hypothesis: for raw entries whose length field lies, for containers whose size wraps in `as u32` -- what the
+   iterators hand to the builders on a corrupt input -- write_entry still never modifies the bytes already in the
+   buffer, and what it appends and the entry word it returns depend on the entry alone (every replace_jentry lands in a
+   slot reserved by the same call, addressed from the buffer length at reservation time). *)
+From JB Require Import Builder BuilderProofs BuilderFrame.
+Theorem C17_builder_frame_any_entries : forall e buf,
+  exists tail j, write_entry buf e = (buf ++ tail, j) /\ (forall buf', write_entry buf' e = (buf' ++ tail, j)).
+Proof. exact write_entry_frame_any. Qed.
+Print Assumptions C17_builder_frame_any_entries.
+
+(* with the appended bytes named (witem: the layout with the RETURNED entry words and length sums), and the two
+   build_into entry points *)
+Theorem C17_builder_frame_explicit : forall e buf,
+  write_entry buf e = (buf ++ wpl e, wje e) /\
+  (entry_okb e = true -> witem e = entry_item e) /\
+  (forall es, build_arr_into buf es = buf ++ build_arr_into [] es) /\
+  (forall kes, build_obj_into buf kes = buf ++ build_obj_into [] kes).
+Proof.
+  intros e buf. split; [apply write_entry_frame|]. split; [apply witem_ok|].
+  split; intros; [apply build_arr_into_frame|apply build_obj_into_frame].
+Qed.
+Print Assumptions C17_builder_frame_explicit.
+
+(* ---- every byte editor on ANY input (EditFrame.v): valid encodings, truncated or corrupted buffers, JSON text,
+   garbage; any prior buffer content.  `appends_only f`: if the call on an empty buffer returns out, the call on buf
+   returns buf ++ out; if it returns an error, the same error; if it panics, it panics. *)
+From JB Require Import EditFrame.
+From JB Require SetWalk.
+Theorem C17_editors_append_on_any_input :
+  (forall l r, appends_only (concat_w l r)) /\
+  (forall bs name, appends_only (delete_by_name_w bs name)) /\
+  (forall bs i, appends_only (delete_by_index_w bs i)) /\
+  (forall bs pos nv, appends_only (array_insert_w bs pos nv)) /\
+  (forall items, appends_only (build_array_w items)) /\
+  (forall keys items, appends_only (build_object_w keys items)) /\
+  (forall bs key nv upd, appends_only (object_insert_w bs key nv upd)) /\
+  (forall bs ks, appends_only (object_delete_w bs ks)) /\
+  (forall bs ks, appends_only (object_pick_w bs ks)) /\
+  (forall bs, appends_only (strip_nulls_w bs)) /\
+  (forall bs ks, appends_only (delete_by_keypath_w bs ks)) /\
+  (forall bs, appends_only (SetWalk.array_distinct_w bs)) /\
+  (forall l r, appends_only (SetWalk.array_intersection_w l r)) /\
+  (forall l r, appends_only (SetWalk.array_except_w l r)).
+Proof. exact editors_append_on_any_input. Qed.
+Print Assumptions C17_editors_append_on_any_input.
+
+(* build_array / build_object write into the caller's buffer themselves and can fail half way (an item with a bad
+   header): the buffer AS THE FUNCTION LEAVES IT, error or not, still has the caller's bytes as an untouched prefix *)
+Theorem C17_build_array_object_leave_prefix : forall buf,
+  (forall items, build_array_st items buf = (buf ++ fst (build_array_st items []), snd (build_array_st items []))) /\
+  (forall keys items, build_object_st keys items buf = (buf ++ fst (build_object_st keys items []), snd (build_object_st keys items []))).
+Proof. intros buf. split; intros; [apply build_array_st_frame|apply build_object_st_frame]. Qed.
+Print Assumptions C17_build_array_object_leave_prefix.
+
+(* not vacuous: an entry that is NOT entry_okb (a raw entry claiming 100 bytes for 2, a nested object whose returned
+   length 13 is not its true length 16): what is written differs from the layout, and is still only appended; and a
+   corrupted document (one length byte of a valid encoding changed) on which an editor still answers, one on which it
+   panics, a truncated one on which it errs -- with a non-empty buffer *)
+Definition c17_bad_entry : entry := EArr [ERaw (STRING_TAG, 100) [1; 2]; EObj [([107], ERaw (NUMBER_TAG, 0) [9; 9; 9])]].
+Definition c17_corrupt : list N :=
+  [64; 0; 0; 2; 16; 0; 0; 1; 16; 0; 0; 1; 80; 0; 0; 14; 16; 0; 0; 2; 97; 98; 128; 0; 0; 2; 32; 0; 0; 2; 16; 0; 0; 1; 80; 1; 120; 104; 105].
+Example C17_any_input_example :
+  entry_okb c17_bad_entry = false /\
+  write_entry [255; 254] c17_bad_entry
+  = ([255; 254] ++ [128; 0; 0; 2; 16; 0; 0; 100; 80; 0; 0; 13; 1; 2; 64; 0; 0; 1; 16; 0; 0; 1; 32; 0; 0; 0; 107; 9; 9; 9],
+     (CONTAINER_TAG, 125)) /\
+  wpl c17_bad_entry <> epl c17_bad_entry /\
+  delete_by_name_w c17_corrupt [98] [7; 8]
+  = Ok ([7; 8] ++ [64; 0; 0; 1; 16; 0; 0; 1; 80; 0; 0; 14; 97; 128; 0; 0; 2; 32; 0; 0; 2; 16; 0; 0; 1; 80; 1]) /\
+  strip_nulls_w c17_corrupt [7; 8] = Panic /\ strip_nulls_w c17_corrupt [] = Panic /\
+  delete_by_name_w (firstn 3 c17_corrupt) [98] [7; 8] = Err EOther.
+Proof. vm_compute. repeat split; try reflexivity. discriminate. Qed.
